@@ -99,7 +99,7 @@ type dbCase struct {
 	Prefill    []prefill `json:"prefill"`
 	Msgs       []msg     `json:"msgs"`
 	Concurrent bool      `json:"concurrent"`
-	Yields     []int     `json:"yields,omitempty"` // concurrent mode: scheduler yields before message i
+	Yields     []int     `json:"yields,omitempty"`      // concurrent mode: scheduler yields before message i
 	SendYields int       `json:"send_yields,omitempty"` // the reply consumer yields this often per reply (a slow connection)
 	Bulk       int       `json:"bulk,omitempty"`        // additional JSON records NS/bulk<i> in every database of the case
 	BulkDBs    []string  `json:"bulk_dbs,omitempty"`
